@@ -64,9 +64,32 @@ def run(ch, build):
     hist.replay(ch, scns, outs, (h,), "c09")
     # session-less histories
     scripts = [s for s in hist.all_scripts(hist.ALPHA_SL, depth) if hist.useful(s, False)]
+    # replies whose wrapper carries a non-null session ID / sequence number (the library does not reject them):
+    # whatever was received, the next session-less datagram carries the null header
+    scripts += [["setbytes:6=%d;7=%d;10=%d;13=%d" % (ch.rng.randrange(1, 256), ch.rng.randrange(256), ch.rng.randrange(1, 256), ch.rng.randrange(256))]
+                for _ in range(40)]
+    ch.rng.shuffle(scripts)
     scns = hist.build_scenarios(ch, False, scripts)
     outs = conn.run_scenarios(scns)
     hist.replay(ch, scns, outs, (h,), "c09")
+    # ... and the handshake that follows such a reply
+    scns = []
+    for k in range(6):
+        su = hist.SUITES[k]
+        scns.append({"bmc": conn.default_bmc(seed=40 + k, suites=[[100, su[0], su[1], su[2]]]), "timeout_ms": 40, "steps": [
+            {"op": "cmd", "conn": "sessionless", "cmd": {"name": "getsystemguid"}, "script": ["setbytes:6=68;7=51;10=7"]},
+            {"op": "open", "user": "admin", "password": b"secret".hex(), "priv": 4, "lookup": True, "suites": [list(su)]},
+            {"op": "cmd", "conn": "sessionless", "cmd": {"name": "authcaps", "p": [1, 14, 4]}, "script": ["ok"]}]})
+    outs = conn.run_scenarios(scns)
+    for scn, out in zip(scns, outs):
+        for step, res in zip(scn["steps"], out["steps"]):
+            ch.note_case("c09-after-nonnull-reply", str(scn["bmc"]["suites"]) + step["op"])
+            for e in res["bmc"]:
+                if e["kind"] in ("opensession", "rakp1", "rakp3", "ipmi-sessionless") and (e["sid"] != 0 or e["seq"] != 0 or e["auth"] or e["enc"]):
+                    ch.violation({"kind": "c09", "conn": "sessionless-after-nonnull-reply"}, {"scenario": scn, "event": e,
+                                 "what": "session-less datagram with session ID %d sequence %d" % (e["sid"], e["seq"])})
+            if step["op"] != "cmd" and res["err"] != "nil":
+                ch.violation({"kind": "c09", "conn": "sessionless-after-nonnull-reply"}, {"scenario": scn, "what": "handshake failed after a reply with a non-null header", "err": res.get("errtext")})
     ch.extra["depth"] = depth
     ch.exhaustive = True
     return ch.finish(rule=RULE, assumptions=["as C10"])
